@@ -55,6 +55,10 @@ def _same_string_probes(dest, title, order):
 # headings: one that ends a document with a closing sequence, one that begins a document without any text
 PROBES += ['text\n\n## closing ##\n\n# last ####\n', '#\n\n###\n\ntext\n']
 PROBES += ['| a [[b | c]] d | e]] |\n|---|---|\n| [[x | y | z]] |\n| p \\| q | `r | s` |\n', 'para\n| h | i |\n|---|---|\n| c | d |\n\nnext\n', '- item\n* * *\n\n- a\n- - -\nb\n| x |\n|---|\n']
+# a table look-ahead that succeeds on a line which the parse then hands to another block type (indented code, an
+# ordered item that does not start at 1, a lone tag), followed by documents that look ahead / read a table at the same line index
+PROBES += ['intro\n    left | right\n|---|---|\n| 1 | 2 |\n', 'intro\n2. left | right\n|---|:-:|\n| 3 | 4 |\n',
+           'intro\n<span title="a|b">\n|---|---|\n| 5 | 6 |\n', 'first line\nx | y\n', 'zero\none | two\n|---|---|\n| 7 | 8 |\n\nend\n']
 PROBES += _same_string_probes('/q?a=1&region=eu&copy', 'Q&A &copy 2020 \\* &amp', 1)
 PROBES += _same_string_probes('/p?b=2&sect=9&reg', 'R&D &reg 1999 \\_ &lt', -1)
 
